@@ -14,13 +14,18 @@ RULE = ("cases: (network BTC/LTC, message name, field values) for every key of S
         "are per declared type boundary values (u32 0/1/2^31/2^32-1, u64 to 2^64-1, 6-byte ids to 2^48-1, u8 0/255, booleans, "
         "compact-size boundaries), arrays of length 0/1/2/252/253/1000, IPv4-mapped and IPv6 addresses, ports 0/1/255/256/8333/65535, "
         "embedded transactions (with and without witness), headers, blocks, honest merkle proofs, well-formed alert payloads, "
-        "optional relay True/False/absent. Distinct by (message, reference bytes, relay presence); non-trivial when the message has fields. "
+        "optional relay True/False/absent; an IPv4 address is handed over every second time as PeerAddress(services, 4 bytes, port), an "
+        "inventory item of type 1-3 every second time through the checking InvItem constructor. Per (message, field) the value "
+        "classes reached are counted (zero / maximum of the integer type, compact-size width, array length 0 / 1 / >= 253, empty / long "
+        "string, IPv4-mapped or not, port whose two bytes differ, witness or not, ...) and the classes of every declared field are "
+        "required. Distinct by (message, reference bytes, relay presence); non-trivial when the message has fields. "
         "Call spellings (one per value set, all classes come round in every shard, recorded in the case): after the pack with keywords in "
         "declared order the same argument objects are packed again with the keywords reversed / sorted by name / shuffled / rotated, with "
         "1-2 undeclared keys at rng-chosen positions, with arrays as tuples, pairs as lists, byte arrays (filter, data, flags) as bytes / "
         "bytearray; parse gets the payload as bytes, a bytes-subclass instance, a bytearray or memoryview of one that the caller overwrites "
         "right after the call; every second value set the dict parse returned (all its keys, incl. tx_hashes / alert_info, in returned / "
-        "reversed / sorted / shuffled order) is packed again and must give the payload. "
+        "reversed / sorted / shuffled order) is packed again; when pack returns, it must return the payload (when it refuses the keys "
+        "parse added, the declared keys alone are packed in the same order). "
         "Histories (per shard, from the shard rng): 6-12 steps on one network (BTC or LTC) over a pool of live objects - new message "
         "(object slots filled from the pool: the same Block/Tx/PeerAddress/InvItem object in several messages and several times in one "
         "array), read-only calls on an object (hash/id/as_bin/as_hex/str/stream/...), in-place change then re-send (Block.set_nonce, "
@@ -43,10 +48,13 @@ ASSUMPTIONS = [
     "sequence container types are not compared (a list packed may come back as a tuple)",
     "call spellings: keyword arguments are unordered (a name/value mapping), so every order names the same message; tuples and lists are "
     "the array / pair spellings pack itself distinguishes, bytes / bytearray are what BloomFilter.filter_load_params hands out for "
-    "`filter`. pack(name, **parse(name, payload)) = payload is read as part of 'round-trip' including the keys parse adds itself "
-    "(tx_hashes, alert_info); an absent `relay` (reported falsy) is passed on as None. Undeclared keys the caller made up and "
-    "bytearray / memoryview payloads are only judged when the call returns (a refusal is counted, not reported); a bytes-subclass "
-    "instance is a bytes object and must be parsed",
+    "`filter`. pack(name, **parse(name, payload)) = payload is read as part of 'round-trip' WHEN pack returns; an absent `relay` "
+    "(reported falsy) is passed on as None. The statement does not say that pack takes keys the message does not declare (made up "
+    "by the caller or added by parse to its result: tx_hashes, alert_info), that it takes back what parse returned, or that parse "
+    "takes a bytearray / memoryview: an exception in these spellings is counted, not reported; only a returned wrong result is a "
+    "violation. A parse result that was right when returned and changes when the caller later overwrites the bytearray it passed is "
+    "counted, not reported. A bytes-subclass instance is a bytes object and must be parsed",
+    "field values are compared by value: a byte string may come back in any bytes-like type, True == 1",
     "histories: 'the fields of a message' are the values its argument objects have when pack is called; objects are changed between "
     "calls only through what the library defines or does itself (Block.set_nonce, Block.set_txs with transactions matching the header "
     "root, Tx.set_witness, assignment to TxIn.script / TxIn.sequence / TxOut.coin_value as Solver, SolutionChecker and tx_utils do, list "
@@ -325,13 +333,30 @@ def mk_block(N, b):
     return blk
 
 
+IPV4_PREFIX = b"\0" * 10 + b"\xff\xff"
+
+
+def addr_in_4_bytes(a):
+    return a["ip"][:12] == IPV4_PREFIX and bool((a["ip"][15] ^ a["port"]) & 1)
+
+
+def inv_checked(i):
+    return i["type"] in (1, 2, 3) and bool(i["hash"][0] & 1)
+
+
 def mk_addr(a):
+    """the address as a PeerAddress; an IPv4 one every second time in the constructor's 4-byte spelling (which of the
+    two follows from the value, so a replay builds the same object)"""
     from pycoin.message.PeerAddress import PeerAddress
+    if addr_in_4_bytes(a):
+        return PeerAddress(a["services"], a["ip"][12:], a["port"])
     return PeerAddress(a["services"], a["ip"], a["port"])
 
 
 def mk_inv(i):
     from pycoin.message.InvItem import InvItem
+    if inv_checked(i):
+        return InvItem(i["type"], i["hash"])              # the checking constructor takes the three classic types
     return InvItem(i["type"], i["hash"], dont_check=True)
 
 
@@ -425,9 +450,10 @@ def cmp_value(N, got, want):
     if isinstance(want, bool):
         return None if (got == want and isinstance(got, (bool, int))) else "bool"
     if isinstance(want, int):
-        return None if (isinstance(got, int) and not isinstance(got, bool) and got == want) else "int"
+        return None if (isinstance(got, int) and got == want) else "int"
     if isinstance(want, bytes):
-        return None if (isinstance(got, bytes) and bytes(got) == want) else "bytes"
+        # the same byte string in any bytes-like type (b"ab" == bytearray(b"ab")): the statement fixes the value
+        return None if (isinstance(got, (bytes, bytearray, memoryview)) and bytes(got) == want) else "bytes"
     if isinstance(want, list):
         if not isinstance(got, (list, tuple)) or len(got) != len(want):
             return "array length"
@@ -612,6 +638,128 @@ def repack_kwargs(d, model, how, seed=0):
     return {k: (model[k] if k == "relay" else d[k]) for k in keys}
 
 
+# ------------------------------------------------------------------------------------------- value classes
+#
+# Which regions of "every field value of the declared type" a run reached is counted per (message, field) from the
+# reference values and the types the library's table declares; the classes a generator is built to reach are required
+# (a run that did not reach one is INCONCLUSIVE).  Arrays: the first 12 elements and the last one are classified.
+
+# the value type of every field the generators produce, in the letters of the comment at the head of the library's table
+# (the check's own list: the classes are those of the generated values, whatever the table under test says)
+VALUE_TYPES = {name: dict(item.split(":") for item in layout.split()) for name, layout in {
+    "version": "version:L services:Q timestamp:Q remote_address:A local_address:A nonce:Q subversion:S last_block_index:L relay:O",
+    "addr": "date_address_tuples:[LA]", "inv": "items:[v]", "getdata": "items:[v]", "notfound": "items:[v]",
+    "reject": "message:S code:1 reason:S data:#", "getblocks": "version:L hashes:[#] hash_stop:#",
+    "getheaders": "version:L hashes:[#] hash_stop:#", "tx": "tx:T", "block": "block:B", "headers": "headers:[zI]",
+    "feefilter": "fee_filter_value:Q", "sendcmpct": "enabled:b version:Q",
+    "cmpctblock": "header_hash:# nonce:Q short_ids:[6] prefilled_txs:[IT]", "getblocktxn": "header_hash:# indices:[I]",
+    "blocktxn": "header_hash:# txs:[T]", "ping": "nonce:Q", "pong": "nonce:Q",
+    "filterload": "filter:[1] hash_function_count:L tweak:L flags:b", "filteradd": "data:[1]",
+    "merkleblock": "header:z total_transactions:L hashes:[#] flags:[1]", "alert": "payload:S signature:S",
+}.items()}
+
+INT_MAX = {"L": 0xffffffff, "Q": 0xffffffffffffffff, "1": 0xff, "6": 0xffffffffffff}
+PAIR_KEYS = {"LA": ("time", "addr"), "zI": ("header", "txn_count"), "IT": ("index", "tx")}
+# not every class exists for these: the proof fixes total/hashes/flags together, the alert payload is a structure
+NO_CLASS_REQUIREMENT = {("merkleblock", "total_transactions"), ("merkleblock", "hashes"), ("merkleblock", "flags"), ("alert", "payload")}
+
+
+def scalar_classes(t):
+    """the classes required of a scalar of declared type t"""
+    if t in ("L", "Q", "1"):
+        return ["zero", "max"]
+    if t == "6":
+        return ["zero", "max", "above_2^32"]
+    if t == "I":
+        return ["csize_1byte", "csize_3byte", "csize_5byte", "csize_9byte"]
+    if t == "b":
+        return ["true", "false"]
+    if t == "O":
+        return ["true", "false", "absent"]
+    if t == "S":
+        return ["empty", "len_253_up"]
+    if t == "A":
+        return ["ipv4_mapped", "not_ipv4_mapped", "port_bytes_differ", "services_max", "constructor_4_bytes", "constructor_16_bytes"]
+    if t == "T":
+        return ["witness", "no_witness"]
+    if t == "v":
+        return ["checking_constructor", "dont_check_constructor"]
+    if t == "B":
+        return ["txs_253_up", "txs_below_253"]
+    if t in ("z", "#"):
+        return ["any"]
+    raise RuntimeError("declared type %r has no value classes in C16: not monitored" % t)
+
+
+def classify_scalar(pre, t, v, ev):
+    if t in INT_MAX:
+        if v == 0:
+            ev(pre + "zero")
+        elif v == INT_MAX[t]:
+            ev(pre + "max")
+        elif t == "6" and v >> 32:
+            ev(pre + "above_2^32")
+    elif t == "I":
+        ev(pre + ("csize_1byte" if v < 253 else "csize_3byte" if v <= 0xffff else "csize_5byte" if v <= 0xffffffff else "csize_9byte"))
+    elif t == "b" or t == "O":
+        ev(pre + ("absent" if v is None else "true" if v else "false"))
+    elif t == "S":
+        ev(pre + ("empty" if not v else "len_253_up" if len(v) >= 253 else "other"))
+    elif t == "A":
+        ev(pre + ("ipv4_mapped" if v["ip"][:12] == IPV4_PREFIX else "not_ipv4_mapped"))
+        if v["port"] >> 8 != v["port"] & 0xff:
+            ev(pre + "port_bytes_differ")
+        if v["services"] == INT_MAX["Q"]:
+            ev(pre + "services_max")
+        ev(pre + ("constructor_4_bytes" if addr_in_4_bytes(v) else "constructor_16_bytes"))
+    elif t == "v":
+        ev(pre + ("checking_constructor" if inv_checked(v) else "dont_check_constructor"))
+    elif t == "T":
+        ev(pre + ("witness" if any(i["witness"] for i in v["ins"]) else "no_witness"))
+    elif t == "B":
+        ev(pre + ("txs_253_up" if len(v["txs"]) >= 253 else "txs_below_253"))
+    else:
+        ev(pre + "any")
+
+
+def classify(name, fields, ev):
+    for k, t in VALUE_TYPES.get(name, {}).items():
+        v = fields[k]
+        pre = "class:%s.%s:" % (name, k)
+        if t[0] != "[":
+            classify_scalar(pre, t, v, ev)
+            continue
+        n = len(v)
+        ev(pre + ("len0" if n == 0 else "len1" if n == 1 else "len_253_up" if n >= 253 else "len_2_252"))
+        et = t[1:-1]
+        for e in (v[:12] + v[-1:] if n > 12 else v):
+            if len(et) == 1:
+                classify_scalar(pre + "element:", et, e, ev)
+            else:
+                for c, key in zip(et, PAIR_KEYS[et]):
+                    classify_scalar(pre + key + ":", c, e[key], ev)
+
+
+def required_classes():
+    req = []
+    for name, types in VALUE_TYPES.items():
+        for k, t in types.items():
+            if (name, k) in NO_CLASS_REQUIREMENT:
+                continue
+            pre = "class:%s.%s:" % (name, k)
+            if t[0] != "[":
+                req += [pre + c for c in scalar_classes(t)]
+                continue
+            req += [pre + c for c in ("len0", "len1", "len_253_up")]
+            et = t[1:-1]
+            if len(et) == 1:
+                req += [pre + "element:" + c for c in scalar_classes(et)]
+            else:
+                for c, key in zip(et, PAIR_KEYS[et]):
+                    req += [pre + key + ":" + c for c in scalar_classes(c)]
+    return req
+
+
 # ------------------------------------------------------------------------------------------- judgement
 
 def _pack(N, name, fields):
@@ -682,6 +830,7 @@ def judge(net, name, fields, rec, sample=False, variant=None):
     rec.case((net, name, want, fields.get("relay", 0)), nontrivial=bool(fields))
     rec.ev("pack")
     rec.ev("pack:" + name)
+    classify(name, fields, rec.ev)
     kw = {k: to_lib(N, v) for k, v in fields.items()}
     st, got = observe(lambda: N.message.pack(name, **kw))
     int6 = name == "cmpctblock" and len(fields.get("short_ids", ())) > 0
@@ -703,7 +852,16 @@ def judge(net, name, fields, rec, sample=False, variant=None):
     data, scribble = spell_data(want, how)
     st, d = observe(N.message.parse, name, data)
     if scribble:
-        scribble()                       # the caller's buffer is its own again: what parse returned must not follow it
+        # the caller's buffer is its own again.  The statement speaks of bytes (immutable): a result that was right when it
+        # was returned and follows the caller's later writes to a bytearray is recorded, not reported
+        if st == "ok" and isinstance(d, dict) and not parse_mismatches(N, name, d, fields):
+            scribble()
+            if parse_mismatches(N, name, d, fields):
+                rec.ev("parse_result_follows_caller_buffer:" + how)
+                rec.note("parse(%s) returns values that change when the caller overwrites its buffer afterwards (not judged)" % how)
+                st, d = observe(N.message.parse, name, want)
+        else:
+            scribble()
     if how != "bytes":
         rec.ev("parse_input:" + how)
         if st != "ok" and how != "subclass":
@@ -748,15 +906,26 @@ def judge(net, name, fields, rec, sample=False, variant=None):
         rec.ev("repack_of_parsed:" + variant["repack"])
         if set(d) - set(fields):
             rec.ev("repack_of_parsed:with_keys_added_by_parse")
+        added = [k for k in d if k not in fields]
         a = repack_kwargs(d, fields, variant["repack"], variant.get("repack_seed", 0))
         st, got = observe(lambda: N.message.pack(name, **a))
-        if st != "ok" or got != want:
-            a = repack_kwargs({k: d[k] for k in fields}, fields, "parsed")
-            st2, got2 = observe(lambda: N.message.pack(name, **a))
-            if st2 == "ok" and got2 == want:
-                rec.violation("p2p.repack_of_parsed.depends_on_keys_or_order.%s" % name, case, got, want)
-            else:
-                rec.violation("p2p.repack_of_parsed.%s.%s" % ("raises" if st != "ok" else "bytes_mismatch", name), case, got, want)
+        if st != "ok" and added:
+            # pack refuses the keys parse added itself (tx_hashes, alert_info): the statement does not say it takes them.
+            # Counted; the declared keys alone, in the same order, are packed instead
+            rec.ev("repack_of_parsed:keys_added_by_parse_refused")
+            a = {k: v for k, v in a.items() if k in fields}
+            st, got = observe(lambda: N.message.pack(name, **a))
+        if st != "ok":
+            rec.ev("repack_of_parsed:refused")               # a refusal is not a wrong answer: not judged
+        else:
+            rec.ev("repack_of_parsed:returned")
+            if got != want:
+                a = repack_kwargs({k: d[k] for k in fields}, fields, "parsed")
+                st2, got2 = observe(lambda: N.message.pack(name, **a))
+                if st2 == "ok" and got2 == want:
+                    rec.violation("p2p.repack_of_parsed.depends_on_keys_or_order.%s" % name, case, got, want)
+                else:
+                    rec.violation("p2p.repack_of_parsed.bytes_mismatch.%s" % name, case, got, want)
     if sample:
         rec.sample({"op": "pack/parse", "net": net, "name": name, "bytes": want[:120], "n_bytes": len(want)})
 
@@ -963,15 +1132,19 @@ class History:
                 if good(r4):
                     # the same objects, spelled in the declared order without further keys, give the right bytes
                     r5 = observe(lambda: N.message.pack(name, **{k: kw[k] for k in kw if k not in made_up})) if made_up else (None, None)
+                    # the caller's own key order with the declared keys only
+                    r6 = observe(lambda: N.message.pack(name, **{k: kw[k] for k in kw if k in fields})) if undeclared else (None, None)
                     if good(observe(lambda: N.message.pack(name, **kw))):
                         # ... and now the caller's own spelling is right as well: the answer follows the calls made before it
                         mech = "p2p.history.pack_depends_on_preceding_calls.%s.after_%s" % (name, "+".join(self.mutators_of(fields)) or self.after)
-                    elif good(r5) and st != "ok":
-                        mech = None                    # an undeclared keyword the caller made up is refused: not judged
-                        rec.ev("history.pack_rejects_undeclared_keyword")
+                    elif st != "ok" and (good(r5) or good(r6)):
+                        # keys the message does not declare (made up by the caller, or added by parse to its result) are
+                        # refused; without them the same spelling is right.  A refusal is not a wrong answer: not judged
+                        mech = None
+                        rec.ev("history.pack_rejects_undeclared_keyword" if good(r5) else "history.pack_rejects_keys_added_by_parse")
                     elif good(r5):
                         mech = "p2p.history.pack_disturbed_by_undeclared_keyword.%s" % name
-                    elif in_declared_order:
+                    elif in_declared_order or good(r6):
                         mech = "p2p.history.pack_disturbed_by_keys_added_by_parse.%s" % name
                     else:
                         mech = "p2p.history.pack_depends_on_keyword_order.%s" % name
@@ -1010,15 +1183,21 @@ class History:
             self.buf = data.obj if how == "buffer_view" else data
             rec.ev("history.receive_buffer_view_retained")
         st, d = observe(N.message.parse, name, data)
+        bad = parse_mismatches(N, name, d, fields) if st == "ok" else None          # judged as returned
         if scribble:
             scribble()
+            if st == "ok" and not bad and parse_mismatches(N, name, d, fields):
+                rec.ev("history.parse_result_follows_caller_buffer:" + how)           # not judged (see judge)
+                st, d = observe(N.message.parse, name, want)
+                bad = parse_mismatches(N, name, d, fields) if st == "ok" else None
         rec.ev("history.parse_input:" + how)
         if st != "ok" and how not in ("bytes", "subclass"):
             st2, d2 = observe(N.message.parse, name, want)
             if st2 == "ok":
                 rec.ev("history.parse_rejects_input:" + how)          # not judged: the statement speaks of bytes
                 st, d, how = st2, d2, "bytes"
-        return st, d, (parse_mismatches(N, name, d, fields) if st == "ok" else None), how
+                bad = parse_mismatches(N, name, d, fields)
+        return st, d, bad, how
 
     # ---- steps
     def step_new(self, name=None):
@@ -1348,6 +1527,8 @@ def run_shard(spec, rec):
     table = table_names()
     check_table(table)
     rec.require("pack", "parse", "relay:true", "relay:false", "relay:absent")
+    rec.require(*required_classes())
+    rec.require("repack_of_parsed:returned")
     if spec.get("histories", 0):
         rec.require("history", "history.pack", "history.parse", "history.read_only_call", "history.invalid_pack_raised",
                     "history.damaged_parse_raised", "history.step:parse_same_bytes_again", "history.step:adopt_parsed_objects",
